@@ -785,6 +785,8 @@ def bp_labels(out, spec, exp):
         out.label("shared-isotopics")
     if any(len(u) >= 2 and any(u) and not all(u) for u in users.values()):
         out.label("shared-isotopics-partly-modified")
+    if any(c["name"] == "inner duct" for d in exp["designs"].values() for b in d["blocks"] for c in b["components"]):
+        out.label("two-ducts")
     if grid:
         out.label("pin-lattice")
     if holes:
@@ -894,6 +896,9 @@ _DUP_SIGS = {
 EXCLUDE_KNOWN.update({sig: True for sig in _DUP_SIGS.values()})
 
 
+_KIND_WEIGHT = {"bundle-exceeds-inner-duct": 3, "mult-conflict": 2}
+
+
 def bad_strategy(tier):
     from vp.gen import c18_bp
 
@@ -923,7 +928,8 @@ def bad_execute(case):
             continue
         t = c18_bp.faulty(spec, kind, case["a"])
         if t is not None:
-            applicable.append((kind, t))
+            # (kinds that need a particular block layout apply to fewer documents: drawn with a larger weight)
+            applicable.extend([(kind, t)] * _KIND_WEIGHT.get(kind, 1))
     # (Hypothesis draws 0 very often: the index is mixed with other case data to spread the kinds evenly)
     kind, text = applicable[(case["kind"] + case["a"] + int(spec["pitch"] * 1000)) % len(applicable)]
     if case.get("kindName"):  # (pinned replays name the kind, so that they survive changes of the kind list)
@@ -979,7 +985,8 @@ PARTS = [
               "stacks in reverse order gives every component the same composition; non-trivial as for blueprints"),
     Part("inconsistent", bad_execute, strategy=bad_strategy, budget={"quick": 360, "thorough": 20000}, procs={"quick": 4, "thorough": 16},
          rule="a well-formed generated document with exactly one inconsistency injected (unknown specifier, list of wrong length for "
-              "heights/xs types/mesh points/modifications, pins larger than the duct, clad with id > od, duplicate grid location or "
+              "heights/xs types/mesh points/modifications, pins larger than the duct, wire-wrapped pin bundle wider than the inner "
+              "duct of a two-duct hex block but narrower than the outer duct, clad with id > od, duplicate grid location or "
               "attribute, mult conflicting with the lattice, modification for an unknown component / unknown key, dangling link, "
               "unknown shape/flag/isotopics label/grid, isotopic fractions not summing to 1, density given with number densities): "
               "Blueprints.load + reactors.factory must raise; every case is non-trivial"),
